@@ -185,10 +185,16 @@ pub(crate) fn translate_block(
                 | capstone::x86_insn::X86_INS_MOVNTI
                 | capstone::x86_insn::X86_INS_MOVUPS => semantics.mov(&mut instruction_graph),
                 capstone::x86_insn::X86_INS_MOVQ => semantics.movq(&mut instruction_graph),
+                // capstone gives the SSE2 scalar move `movsd xmm, xmm/m64` the id
+                // of the string instruction `movsd`
                 capstone::x86_insn::X86_INS_MOVSB
                 | capstone::x86_insn::X86_INS_MOVSW
                 | capstone::x86_insn::X86_INS_MOVSD
-                | capstone::x86_insn::X86_INS_MOVSQ => semantics.movs(&mut instruction_graph),
+                | capstone::x86_insn::X86_INS_MOVSQ
+                    if semantics.is_string_move() =>
+                {
+                    semantics.movs(&mut instruction_graph)
+                }
                 capstone::x86_insn::X86_INS_MOVSX => semantics.movsx(&mut instruction_graph),
                 capstone::x86_insn::X86_INS_MOVSXD => semantics.movsx(&mut instruction_graph),
                 capstone::x86_insn::X86_INS_MOVD | capstone::x86_insn::X86_INS_MOVZX => {
